@@ -467,6 +467,31 @@ def match_shape(run):
     run.check(keyed >= 2, R, R + "|max-exact-key", mi.loc(), "both the maximum and the filter are keyed on exact_part_count", "the selection closures no longer read exact_part_count")
 
 
+def match_identity(run, R="MATCH"):
+    """two matches are `the same` only when they come from the same rule block, the same rule and the same arguments: the
+    fields compared by InstructionMatch::is_same"""
+    from rules_sym import deep
+    prog = run.prog
+    f = run.anchor(R, "matcher::InstructionMatch::is_same")
+    if f is None:
+        return
+    fns = [f] + [g for g in prog.real_fns() if g.kind == "Closure" and (g.raw.get("root") == f.id)]
+    compared = set()
+    for g in fns:
+        for bi, si, st in g.stmts():
+            if st["k"] == "assign" and st["rv"]["k"] == "binop" and st["rv"]["op"] == "Eq":
+                l, r = deep(g, st["rv"]["l"], 4), deep(g, st["rv"]["r"], 4)
+                m1, m2 = re.match(r"^(?:Vec::len\()?P(\d)\.(\w+)", l), re.match(r"^(?:Vec::len\()?P(\d)\.(\w+)", r)
+                if m1 and m2 and m1.group(2) == m2.group(2) and m1.group(1) != m2.group(1):
+                    compared.add(m1.group(2) + (".len" if l.startswith("Vec::len") else ""))
+        for bi, t in g.calls():
+            if (t.get("resolved") or "").endswith("InstructionArgument::is_same"):
+                compared.add("args.each")
+    want = {"ruledef_ref", "rule_ref", "args.len", "args.each"}
+    run.check(want <= compared, R, R + "|identity", f.loc(), "matches are identified by rule block, rule and arguments (%s)" % sorted(compared),
+              "InstructionMatch::is_same no longer compares %s: matches of different rules would be merged as duplicates, so an ambiguity between them is not reported (or one of them is dropped)" % sorted(want - compared))
+
+
 def sk_provider(run):
     """the providers that feed is_value_statically_known answer `known` only from audited sources"""
     R = "SK"
